@@ -308,6 +308,20 @@ CLAIMED = {
              "decode(encode(x)) == x is not decided.",
         technique="call-argument shape (format literal, cast chain, operator tree) + CFG dominance with history facts + guard intervals",
         design="5/C31"),
+    "C08": dict(
+        text="Descriptor-table bookkeeping: Number_FD changes only in fd_open(+1)/fd_close(-1) and fd_close/comm_close_complete have only the confirmed callers (whole program); "
+             "comm_close_complete releases the table entry and the OS descriptor of the same fd on every path; file_close releases both or neither; once _comm_close set "
+             "close_request every path runs the close handlers and schedules comm_close_complete, and a closing descriptor is never closed twice; accepted/created sockets are "
+             "registered on every path after the failure check. Leak freedom over job lifetimes and liveness are not decided.",
+        technique="whole-program who-writes/who-calls + ORDER (must-pass on all exits) + response rules",
+        design="5/C08"),
+    "C09": dict(
+        text="Bounded-write clause in the 11 anchored parser/forwarding files: every memcpy/xstrncpy/strncpy/strncat/snprintf/memset into a destination of constant array type "
+             "has a size the front end evaluates to <= the array size (or a conditional bounded by it), writes into locally allocated buffers are limited by the allocation "
+             "size expression, and unbounded strcpy/strcat/sprintf/gets into fixed arrays are banned. Use-after-free, assertion reachability and SBuf/Tokenizer internals are "
+             "not decided.",
+        technique="resolved-callee site enumeration + declared array sizes and front-end constant evaluation of size arguments (GINT) + allocation/limit agreement (ARGS)",
+        design="5/C09"),
 }
 
 NOT_APPLICABLE = {
